@@ -344,11 +344,51 @@ def gen_deck(rng, style=None):
     deck = {'title': 'C07 generated hexagonal lattice', 'cells': cells,
             'surfaces': surfaces, 'transforms': {}, 'materials': {},
             'data': []}
+    # the same prism placed through a coordinate transformation: the plane
+    # cards written in an auxiliary frame (TRn on the cards), the lattice cell
+    # moved by TRCL, or the lattice universe placed by a fill transformation
+    moved = None
+    roll = rng.random()
+    if roll < 0.12 and style == 'planes':
+        moved = 'surface-tr'
+        trf = deckmod.random_tr(rng)
+        deck['transforms'][7] = trf
+        origin = np.array(trf['O'])
+        rot = (np.eye(3) if trf['B'] is None
+               else np.array(trf['B']).reshape(3, 3).T)
+        for card in surfaces:
+            if card['id'] >= 900:
+                continue
+            if card['mn'] in ('px', 'py', 'pz'):
+                nrm = np.zeros(3)
+                nrm['xyz'.index(card['mn'][1])] = 1.0
+                dist = card['params'][0]
+            else:
+                nrm, dist = np.array(card['params'][:3]), card['params'][3]
+            card['mn'] = 'p'
+            card['params'] = ([float(x) for x in rot.T @ nrm]
+                              + [float(dist - nrm @ origin)])
+            card['tr'] = 7
+    elif roll < 0.22:
+        moved = 'trcl'
+        cells[1]['trcl'] = deckmod.random_tr(rng)
+    elif roll < 0.32:
+        moved = 'container-fill-tr'
+        cells[0]['fill']['tr'] = deckmod.random_tr(rng)
+    move = None
+    if moved in ('trcl', 'container-fill-tr'):
+        radius = gen.clean(radius + 9.0)
+        surfaces[-2]['params'][3] = radius
+        trf = cells[1]['trcl'] if moved == 'trcl' else cells[0]['fill']['tr']
+        move = {'O': [float(v) for v in trf['O']],
+                'R': (np.eye(3) if trf['B'] is None
+                      else np.array(trf['B']).reshape(3, 3).T).tolist()}
     meta = {'style': style, 'regular': hexa['regular'],
             'orient': hexa['orient'], 'listing': listing, 'ranges': ranges,
             'array': array, 'vectors': [[float(x) for x in v] for v in vecs],
             'centre': [float(x) for x in centre], 'radius': radius,
-            'r_fill': r_fill, 'caps': has_caps,
+            'r_fill': r_fill, 'caps': has_caps, 'moved': moved,
+            'move': move,
             'tilt': bool(hexa['caps'] and hexa['caps']['tilt'])}
     return deck, meta
 
@@ -377,6 +417,11 @@ def deck_points(rng, meta, n_random):
             # just on either side of the border with the neighbour across v
             for frac in (0.47, 0.53):
                 pts.append(here + frac * v + 0.02 * jitter)
+    if meta.get('move'):
+        # the structured points follow the lattice to where it was moved
+        origin = np.array(meta['move']['O'])
+        rot = np.array(meta['move']['R'])
+        pts = pts[:n_random] + [origin + rot @ p for p in pts[n_random:]]
     return [p for p in pts
             if np.linalg.norm(p - centre) < 0.995 * radius]
 
@@ -757,6 +802,8 @@ def run(res, tier, seed, proofs_ok):
         text = deckmod.render(deck)
         res.seen(text)
         res.count('deck:' + meta['style'])
+        if meta['moved']:
+            res.count('deck moved:' + meta['moved'])
         conv = convert_watchdog(text, 15.0)
         if conv.exc == 'Hang':
             deck_hangs += 1
